@@ -81,4 +81,93 @@ def pexReceiveRequest (marker : Nat) : Nat × Bool :=
 /-- `ReceiveAddrs` is refused unless the node asked this peer (`requestsSent`) -/
 def pexAddrsAccepted (solicited addrsWellFormed : Bool) : Bool := addrsWellFormed && solicited
 
+/-! ### `Receive`'s decision, per reactor
+
+What a reactor's `Receive` does with one message from a peer. `recovered`: the legacy `Receive`
+panics on bytes that do not decode (or decode to a wrapper without a kind); the panic is caught by
+the connection's `_recover` and the peer is dropped. -/
+
+inductive Decision
+  | accept        -- handled
+  | ignore        -- dropped with a log line, the peer stays
+  | stop          -- Switch.StopPeerForError / StopPeerGracefully
+  | recovered     -- panic in Receive, recovered by MConnection: the peer is dropped
+deriving Repr, DecidableEq
+
+/-- how the bytes decode: not at all, to a wrapper with no kind set, or to a message -/
+inductive Decoded
+  | bad | nosum | msg
+deriving Repr, DecidableEq
+
+/-- bytes that do not give a message never reach the reactor's logic -/
+def decodeGate (d : Decoded) (k : Decision) : Decision :=
+  match d with
+  | .bad => .recovered
+  | .nosum => .recovered
+  | .msg => k
+
+/-! #### evidence (evidence/reactor.go): one item of an EvidenceList -/
+
+inductive EvItem
+  | convErr       -- types.EvidenceFromProto fails (no kind, nil votes, ...)
+  | vbErr         -- converts, ValidateBasic fails
+  | addInvalid    -- pool.AddEvidence returns *types.ErrInvalidEvidence
+  | addOther      -- AddEvidence returns another error (already committed / pending, ...)
+  | addOk
+deriving Repr, DecidableEq
+
+/-- `ReceiveEnvelope`: ALL items are converted first, then ALL validated, then added one by one -/
+def evidenceDecide (items : List EvItem) : Decision :=
+  if items.any (· == .convErr) then .stop
+  else if items.any (· == .vbErr) then .stop
+  else if items.any (· == .addInvalid) then .stop
+  else if items.any (· == .addOk) then .accept
+  else .ignore
+
+/-! #### mempool v0 and v1 (identical `ReceiveEnvelope`) -/
+
+/-- what `CheckTx` answers for one tx of a Txs message; none of them is the peer's end -/
+inductive TxClass
+  | checked | inCache | tooLarge | poolFull | preCheckFailed
+deriving Repr, DecidableEq
+
+def mempoolDecide (txs : List TxClass) : Decision :=
+  if txs.isEmpty then .ignore else .accept
+
+/-- `CheckTx`'s size guard (`txSize > config.MaxTxBytes`) -/
+def txTooLarge (txSize maxTxBytes : Nat) : Bool := decide (txSize > maxTxBytes)
+
+/-! #### pex -/
+
+structure PexCtx where
+  seedMode : Bool
+  peerOutbound : Bool
+  marker : Nat            -- lastReceivedRequests state of this peer (0 none, 1 empty time, 2 a time)
+  solicited : Bool        -- requestsSent has this peer
+deriving Repr
+
+/-- a PexRequest: a seed answers an inbound peer once and disconnects it (later requests of the
+same peer are ignored while the disconnect is under way); otherwise the rate limit applies -/
+def pexRequestDecide (c : PexCtx) : Decision × Nat :=
+  if c.seedMode ∧ ¬ c.peerOutbound then
+    if c.marker ≠ 0 then (.ignore, c.marker) else (.stop, 1)
+  else
+    let r := pexReceiveRequest c.marker
+    (if r.2 then .accept else .stop, r.1)
+
+/-- a PexAddrs message: every address must convert (`NetAddressesFromProto`), the list must have
+been asked for, the sender's own NodeInfo address must parse -/
+def pexAddrsDecide (c : PexCtx) (addrsConvert srcAddrOk : Bool) : Decision :=
+  if ¬ addrsConvert then .stop
+  else if ¬ c.solicited then .stop
+  else if ¬ srcAddrOk then .stop
+  else .accept
+
+/-! #### blockchain v0: BlockResponse -/
+
+/-- `ValidateMsg` decodes the whole block (`types.BlockFromProto`, which runs `ValidateBasic`); a
+block that does not convert stops the sender; one that converts goes to the pool -/
+def blockResponseDecide (blockConverts : Bool) : Decision :=
+  if blockConverts then .accept else .stop
+
 end Tmv.ReactorMsgs
